@@ -424,7 +424,7 @@ func crCases(c *core.Ctx) ([]json.RawMessage, error) {
 		// long runs: digits and letters far beyond any fixed-size buffer or "reasonable" limit an implementation may
 		// have (around 300 = float64 range, 1000, 4096, 65536), as bare numbers and inside strings, in every entry point
 		nl := 0
-		for _, n := range c.PickInts([]int{310, 1001, 1100, 4097, 70000}, []int{25, 310, 999, 1000, 1001, 1100, 4097, 65535, 65537, 70000, 1000000}) {
+		for _, n := range c.PickInts([]int{310, 1001, 1100, 4097, 70000}, []int{25, 310, 999, 1000, 1001, 1100, 4097, 65535, 65537, 70000, 200000}) {
 			d := strings.Repeat("7", n)
 			for _, num := range []string{d, "-" + d, d + "." + d, "0." + d, "1" + strings.Repeat("0", n), "0." + strings.Repeat("0", n) + "1"} {
 				for _, e := range []string{"[" + num + ", 1]", "[1, " + num + "]", "[" + num + ", " + num + "]", "[\"a\", // n\n " + num + "]"} {
